@@ -26,6 +26,14 @@ def box(name, N):
         return [-1e6] * N, [-1e6 + 3.0] * N
     if name == "B4":      # a unit box ten orders of magnitude from the origin (relative width 1e-10)
         return [1e10] * N, [1e10 + 1.0] * N
+    if name == "B0c":     # the unit cube centred at the origin (symmetric: -0.0 / +0.0 coordinates)
+        return [-0.5] * N, [0.5] * N
+    if name == "E":       # equal side lengths, different offsets per axis (a "cube" only by its widths)
+        return [2.0 * i for i in range(N)], [2.0 * i + 1.0 for i in range(N)]
+    if name == "D":       # bounds that are not ascending over the coordinates, very different lower bounds
+        lows = [2.0, -1.0, -3.0, 0.5, -7.0]
+        ups = [3.0, 5.0, -2.5, 4.5, -1.0]
+        return lows[:N], ups[:N]
     if name == "Z":       # integer-typed bounds with an odd sum: Python ints, as a user would write them
         return [0] * N, [3] * N
     if name.startswith("I:"):   # "I:m" - the box whose 2^m cells per axis are centred at the integers 0..2^m-1
